@@ -27,6 +27,31 @@ def _from_std_macro(x):
     return any(m.lstrip("$crate:").split("::")[-1] in STD_MACROS or m.startswith("#Format") for m in ms)
 
 
+def _moved_unsafe(facts, c):
+    hb = facts.body(c[0])
+    if hb is None or hb.exported():
+        return False
+    seen, work = set(), [c[0]]
+    ok_roots = 0
+    while work:
+        x = work.pop()
+        if x in seen:
+            continue
+        seen.add(x)
+        cs = {b.path for b in facts.bodies for i, t in b.calls() if callee(t) == x and i in b.live_blocks()}
+        if not cs:
+            return False
+        for c_ in cs:
+            if (c_, c[1]) in EXPECTED_UNSAFE_CALLS:
+                ok_roots += 1
+            else:
+                cb = facts.body(c_)
+                if cb is None or cb.exported():
+                    return False
+                work.append(c_)
+    return ok_roots > 0
+
+
 def check_inventory(ctx, res, config="all"):
     facts = ctx.facts(config)
     calls = set()
@@ -59,6 +84,10 @@ def check_inventory(ctx, res, config="all"):
         key = "%s->%s" % c
         if c in EXPECTED_UNSAFE_CALLS:
             res.ok("R4-unsafe-inventory", key, {"kind": "unsafe call"})
+        elif _moved_unsafe(facts, c):
+            # the unsafe call sits in a private helper all of whose callers own this very unsafe operation in the audited
+            # inventory: it was moved, and the per-site rule analyses the caller with the helper inlined
+            res.ok("R4-unsafe-inventory", key, {"kind": "unsafe call", "moved_into_helper_of": "an audited caller"})
         elif c[1] in EXPECTED_ASM and (facts.body(c[0]) is not None and not facts.body(c[0]).exported()):
             # a block loop called from another private function: R4-C discovers and audits every call site of the block loops
             res.ok("R4-unsafe-inventory", key, {"kind": "unsafe call", "audited_by": "R4-asm-call-site (call sites are discovered, not listed)"})
@@ -888,7 +917,7 @@ def check_raw_slice(ctx, res, config="all"):
     if len(bs) != 1:
         res.fail(Finding("R4-anchor-lost", "gen_biguint", "not found", file="src/bigrand.rs", line=0))
         return
-    b = bs[0]
+    b = core.inline_private(facts, bs[0], keep=("gen_bits", "biguint_from_vec", "normalized", "normalize"))  # the reinterpretation may live in a private helper
     errs = []
     rc = [(i, t) for i, t in b.calls() if callee_name(t) == "from_raw_parts_mut" and i in b.live_blocks()]
     if len(rc) != 1:
@@ -1104,7 +1133,7 @@ def check_raw_slice_lengths(ctx, res, config="all"):
     if len(bs) != 1:
         res.fail(Finding("R4-anchor-lost", "gen_biguint", "not found", file="src/bigrand.rs", line=0))
         return
-    b = bs[0]
+    b = core.inline_private(facts, bs[0], keep=("gen_bits", "biguint_from_vec", "normalized", "normalize"))
     rc = [(i, t) for i, t in b.calls() if callee_name(t) == "from_raw_parts_mut" and i in b.live_blocks()]
     fe = [(i, t) for i, t in b.calls() if callee_name(t) == "from_elem" and i in b.live_blocks()]
     gb = [(i, t) for i, t in b.calls() if callee_name(t) == "gen_bits" and i in b.live_blocks()]
